@@ -41,14 +41,16 @@ LEVEL_TEXT = ('Theorems (P_C07.v) over the Gallina transition system of LockFile
               'all n files), unlock_idempotent; with cleanup_lockdir in the system (stepc/runc): mutex_with_cleanup and '
               'semaphore_bounded_with_cleanup for schedules without an effective clean-up unlink, cleanup_age_guard (unlink only after a '
               'modification-time reading below clock - max_lock_time), cleanup_override_refuted (the documented take-over of old '
-              'locks).  Mutual exclusion is REFUTED (3 processes, 11 calls) for the same system without the identity check of '
+              'locks); with time in the model (tstep/treach: one clock, modification time = last open("w+") / pid write): '
+              'cleanup_never_unlinks, cleanup_never_removes_held_file and mutex_timed for remove-on-unlock locks along runs in which '
+              'no process keeps a lock file open longer than max_lock_time, cleanup_needs_timely_refuted.  Mutual exclusion is REFUTED (3 processes, 11 calls) for the same system without the identity check of '
               'commit 493c25f.  The model is tied to the code by running real lock users on real files under a scheduler that '
               'serialises their system calls and replaying the observed trace through Lock.step in Coq.')
 LEVEL_NOTE = ('Trusted: Coq kernel, the hand-written model Lock.v, the scheduler harness.  Modelled, not verified: flock(2) '
               'semantics (exclusive per inode, owned by the open file description, released on close), unlink/open/stat '
               'semantics, no inode reuse while a descriptor is open, CPython reference counting closing a dropped LockFile. '
-              'Not proved: that a held lock file never looks older than max_lock_time to cleanup_lockdir (needs modification times '
-              'and a bound on the holding time in the model; false without it).  Outside the statement: file_permissions/chmod, '
+              'Not proved (false): clean-up safety for keep-the-file locks and for lock files left by a crashed holder - a stale file '
+              'that nobody has open can be locked between the getmtime and the unlink of a clean-up pass.  Outside the statement: file_permissions/chmod, '
               'the Windows branch of lockfile.py, "continuously unavailable between two polls" (not expressible for a polling '
               'lock: timeout_partial says what is proved instead); released_lock_acquirable is for a process running alone '
               '(no fairness/liveness claim under contention).')
@@ -172,6 +174,7 @@ class Sched(object):
         self.poll_cause = [0] * self.m    # per contender: attempts of the current poll that met a holder / a removal
         self.cleaner = [None] * self.m    # per clean-up contender: {'expire':, 'm':} of the running cleanup_lockdir call
         self.overridden = False
+        self.max_span = 0                 # longest time any contender had a lock file open (from open to close / remove)
         self.override = False             # the age guard of cleanup_lockdir fired: the documented override of old locks
 
     # ------------------------------------------------------------------ contender side
@@ -241,7 +244,7 @@ class Sched(object):
         # NB: only a weak reference - a strong one held by the scheduler would move the reference-count close of a
         # dropped LockFile out of the contender's thread (and out of the schedule)
         self.att[tid] = {'removes0': self.removes, 'undisturbed': True, 'quiet': quiet, 'file': weakref.ref(f),
-                         'ino': iid, 'fid': id(f), 'slot': k}
+                         'ino': iid, 'fid': id(f), 'slot': k, 't_open': self.clock}
         return f
 
     def file_of_fd(self, tid, fd):
@@ -566,7 +569,10 @@ class Sched(object):
     def grant(self, pid, dt, choice):
         self.clock += dt
         self.choice = choice
-        entry = {'pid': pid, 'op': self.pending[pid], 'res': None, 'events': []}
+        for q in range(self.m):
+            if self.att[q] is not None:
+                self.max_span = max(self.max_span, self.clock - self.att[q]['t_open'])
+        entry = {'pid': pid, 'op': self.pending[pid], 'res': None, 'events': [], 'dt': dt}
         self.trace.append(entry)
         self.cur = entry
         # oracle: the first call after lock() returned is the release
@@ -947,6 +953,17 @@ def run(ctx):
             ctx.count('cleanup-unlinks', sum(1 for r in results if r == ('unlink', True)))
             if s.overridden:
                 ctx.count('old-lock-taken-over-after-cleanup (documented override, not a failure)')
+            # theorem cleanup_never_unlinks, as an oracle on the real code: remove-on-unlock locks only, nobody has the lock
+            # file open for longer than max_lock_time => no clean-up pass unlinks anything
+            cleaners = [c for c in conf['contenders'] if c.get('clean')]
+            if conf['kind'] == 'file' and cleaners and all(c['rm'] for c in conf['contenders'] if not c.get('clean')):
+                if s.max_span <= min(c['timeout'] for c in cleaners):
+                    ctx.count('timely-runs-with-cleanup')
+                    if ('unlink', True) in results and 'cleanup-unlinked-in-timely-run' not in reported:
+                        reported.add('cleanup-unlinked-in-timely-run')
+                        ctx.fail('cleanup-unlinked-in-timely-run',
+                                 'cleanup_lockdir removed a lock file although no contender had it open for longer than '
+                                 'max_lock_time (longest: %s)' % s.max_span, rep)
             if hang:
                 sig = 'hang'
                 if sig not in reported:
@@ -964,13 +981,19 @@ def run(ctx):
                         ctx.fail('unexpected-exception', w, rep)
                     else:
                         ctx.problem('harness', 'unexpected behaviour of the lock code under the scheduler: ' + w, rep)
-            obs = [obs_lit(e) for e in trace]
+            obs = []
+            for e in trace:
+                if e.get('dt'):
+                    obs.append('TTick %s' % zlit(e['dt']))
+                obs.append('TObs %s' % obs_lit(e))
             if hang or s.weird:
-                obs.append(IMPOSSIBLE)
+                obs.append('TObs ' + IMPOSSIBLE)
             terms.append('(%s, [%s])' % (conf_lit(conf), '; '.join(obs)))
             descr.append(rep)
-    ctx.corr_check('lock_trace', 'Lock', 'list pconf * list obs', terms,
-                   "fun c => trace_ok true (fst c) (snd c)", lambda i: descr[i], shard=150)
+    # replay through the timed layer: Lock.stepc for calls and results, Lock.tstep for the readings (every time.time()
+    # equals the clock, every getmtime equals the time of the last open('w+') / pid write of the file at the path)
+    ctx.corr_check('lock_trace', 'Lock', 'list pconf * list tobs', terms,
+                   "fun c => ttrace_ok true (fst c) (snd c)", lambda i: descr[i], shard=150)
     run_bundle_scope(ctx)
 
 
